@@ -105,6 +105,18 @@ else:
             fcntl.flock(file.fileno(), _flags)
         except (IOError, OSError) as err:
             raise LockError("Couldn't lock {0}, error: {1}".format(file.name, err))
+        # The previous holder may have released the lock by removing the file (FileLock with
+        # remove_on_unlock) after we opened it: a lock on an unlinked inode excludes nobody,
+        # because the next process creates and locks a new file. Only accept the lock if the
+        # path still names the file we have locked; otherwise let the caller retry.
+        try:
+            path_stat = os.stat(file.name)
+        except OSError:
+            path_stat = None
+        file_stat = os.fstat(file.fileno())
+        if (path_stat is None or
+                (path_stat.st_dev, path_stat.st_ino) != (file_stat.st_dev, file_stat.st_ino)):
+            raise LockError("Lock file {0} was removed while locking it".format(file.name))
 
     def _unlock_file(file):
         # File is automatically unlocked on close
